@@ -1418,6 +1418,9 @@ def _unalias_once(fn):
             in_region = sum(1 for r in region for n in ast.walk(r) if isinstance(n, ast.Name) and n.id == x)
             if in_region != loads.get(x, 0):
                 continue
+            # what happens after the last statement that reads x does not concern the alias
+            last_use = max(i for i, r in enumerate(region) if any(isinstance(n, ast.Name) and n.id == x for n in ast.walk(r)))
+            region = region[:last_use + 1]
             ok = True
             for r in region:
                 for n in ast.walk(r):
